@@ -15,7 +15,7 @@ def pitch_text(step, alter, octave, natural=False):
 
 
 def fill(rng, length, triplets=True, dots=True, palette=None):
-    """rhythm values filling `length` quarters exactly.  palette "coarse+triplets" (whole to eighth, undotted, and
+    """rhythm values filling `length` quarters exactly.  palette "coarse+triplets" (whole to quarter, undotted, and
     triplets) and "sixteenths" (quarter to sixteenth, undotted, no triplets) give two spines whose own grids are
     incommensurable: neither contains the other, only their least common multiple holds both."""
     out, rem = [], length
@@ -23,7 +23,9 @@ def fill(rng, length, triplets=True, dots=True, palette=None):
         opts = [(v, d) for v, d in VALUES if d <= rem and (dots or v[1] == 0)]
         trip = [(r, d) for r, d in TRIPLETS if 3 * d <= rem] if triplets else []
         if palette == "coarse+triplets":
-            opts = [(v, d) for v, d in opts if v[1] == 0 and v[0] in (1, 2, 4, 8)]
+            # (no eighths unless nothing else fits: with eighths the spine's own grid already holds sixteenths)
+            coarse = [(v, d) for v, d in opts if v[1] == 0 and v[0] in (1, 2, 4)]
+            opts = coarse or [(v, d) for v, d in opts if v == (8, 0)]
             trip = [(r, d) for r, d in TRIPLETS if 3 * d <= rem and r in (12, 6)]
         elif palette == "sixteenths":
             opts = [(v, d) for v, d in opts if v[1] == 0 and v[0] in (4, 8, 16, 16)]
